@@ -51,7 +51,7 @@ func allChecks() []*Check {
 			ID: "C16", Title: "A misbehaving handler cannot stop event delivery",
 			Harnesses: []Harness{
 				{Pkg: "client", Func: "VerifSession", Sched: true, Quick: map[string]int{"N": 3, "SW": 1, "KINDS": 0, "TRACK": 1, "PANICS": 1}, Thorough: map[string]int{"N": 4, "SW": 2, "KINDS": 0, "TRACK": 1, "PANICS": 1}, Asserts: []string{"every-panic-reached-Recover", "every-handler-of-every-line-exactly-once", "DISCONNECTED-exactly-once", "DISCONNECTED-not-delayed-by-stuck-background-handler"}},
-				{Pkg: "client", Func: "VerifC16Recover", Asserts: []string{"recover-called-with-conn-and-line", "handle-returns-normally", "default-logs-one-error", "builtin-handler-panic-recovered", "later-handlers-still-run"}},
+				{Pkg: "client", Func: "VerifC16Recover", Asserts: []string{"recover-called-with-conn-and-line", "handle-returns-normally", "default-logs-an-error", "builtin-handler-panic-recovered", "later-handlers-still-run"}},
 				{Pkg: "client", Func: "VerifC16Background", Asserts: []string{"foreground-not-delayed-by-stuck-background"}},
 			},
 			Bounds:      map[string]string{"quick": "the C03 session where one designated handler invocation (any line, foreground or background) panics or - background - never returns: the panic reaches the configured Recover, every other handler of that line and of all later lines still runs exactly once, DISCONNECTED still arrives once; hNode.Handle with handlers panicking with a string / error / runtime error / struct, default LogPanic; a built-in handler panicking on a malformed line; 40 events with a background handler that never returns", "thorough": "4 lines, delay bound 2"},
@@ -103,8 +103,8 @@ func allChecks() []*Check {
 		{
 			ID: "C20", Title: "The connection password never reaches the log",
 			Harnesses: []Harness{
-				{Pkg: "client", Func: "VerifC20Password", Quick: map[string]int{"PL": 2}, Thorough: map[string]int{"PL": 4}, Asserts: []string{"password-not-in-log", "pass-line-masked", "masked-pass-line-logged-once", "something-was-logged"}},
-				{Pkg: "client", Func: "VerifC20Password", Quick: map[string]int{"PL": 1, "LONG": 1}, Thorough: map[string]int{"PL": 2, "LONG": 1}, Asserts: []string{"password-not-in-log"}, Note: "password of 521..524 bytes"},
+				{Pkg: "client", Func: "VerifC20Password", ValSet: true, Quick: map[string]int{"PL": 2}, Thorough: map[string]int{"PL": 4}, Asserts: []string{"password-not-in-log", "pass-line-masked", "something-was-logged"}},
+				{Pkg: "client", Func: "VerifC20Password", ValSet: true, Quick: map[string]int{"PL": 1, "LONG": 1}, Thorough: map[string]int{"PL": 2, "LONG": 1}, Asserts: []string{"password-not-in-log"}, Note: "password of 521..524 bytes"},
 			},
 			Bounds:      map[string]string{"quick": "passwords of 1..2 symbolic bytes over a 16-symbol alphabet (3-9 # $ ~ ^ _ = + @ ?) disjoint from the library's own log texts (and the same behind a 520-byte filler); one whole session per path: dial ok / refused, negotiation on/off, tracking on/off, flood control off (Flood=true), the k-th socket write failing (k = none,0..3), two received lines, Close; every format string and every string / error argument of every logger call is inspected", "thorough": "passwords up to 4 symbolic bytes"},
 			Outside:     []string{"passwords that are substrings of texts the library logs anyway (e.g. '*')", "loggers that look at non-string arguments", "error texts produced by the real network stack (the dialler is a stub)"},
@@ -204,7 +204,7 @@ func allChecks() []*Check {
 		{
 			ID: "C10", Title: "Flood protection follows Hybrid's penalty rule",
 			Harnesses: []Harness{
-				{Pkg: "client", Func: "VerifC10Step", Asserts: []string{"penalty-rule", "hold-iff-over-10s"}},
+				{Pkg: "client", Func: "VerifC10Step", Asserts: []string{"penalty-rule", "hold-iff-over-10s", "lastsent-is-a-reading-taken-during-the-call"}},
 				{Pkg: "client", Func: "VerifC10Write", Asserts: []string{"flood-never-sleeps", "sleeps-own-charge", "sleep-before-write", "no-sleep-when-under", "penalty-rule"}},
 				{Pkg: "client", Func: "VerifC10Window", Quick: map[string]int{"K": 4}, Thorough: map[string]int{"K": 5}, Solver: "z3-lia", Asserts: []string{"window-bound", "penalty-rule", "held-own-charge"}},
 			},
